@@ -149,6 +149,22 @@ def iterunion_template(model, R):
         pushes = [heap_call(func, s.value, heap) for s in f.body if isinstance(s, ast.Expr)]
         pushes = [p for p in pushes if p and p[0] == 'push']
         ok = it_ok and len(pushes) == 1 and len(f.body) == 1 and is_entry(pushes[0][1], f.target.id)
+    if not ok and len(fors) == 1:
+        # a push that is filtered by a running maximum of the keys pushed so far: pushes are not monotone across pops, so a
+        # successor with a smaller key that was never queued is lost
+        for g in [s for s in walk(fors[0].body) if isinstance(s, ast.If)]:
+            t = g.test
+            if not (isinstance(t, ast.Compare) and len(t.ops) == 1 and isinstance(t.ops[0], (ast.Gt, ast.GtE, ast.Lt, ast.LtE))):
+                continue
+            names = {n.id for n in ast.walk(t) if isinstance(n, ast.Name)}
+            marks = [a for a in g.body if isinstance(a, ast.Assign) and isinstance(a.targets[0], ast.Name) and a.targets[0].id in names]
+            pushes_in = [heap_call(func, x.value, heap) for x in g.body if isinstance(x, ast.Expr)]
+            if marks and any(q and q[0] == 'push' for q in pushes_in) and not g.orelse:
+                R.bad('TRAVERSAL', func, g, 'every successor of a yielded concept is pushed', f'for c in {p_next}({cur}): push(({p_key}(c), c))',
+                      f'push only if {src(t)}, with {src(marks[0])} (a running maximum of the pushed keys)',
+                      extra={'consequence': 'a successor whose key is below the largest key queued so far is never queued although it was not queued before: '
+                                            'members of the up-/downset are missing'})
+                return
     R.check(ok, 'TRAVERSAL', func, fors[0] if fors else loop, 'successors of the yielded concept pushed under their own rank',
             f'for c in {p_next}({cur}): push(({p_key}(c), c))', src(fors[0])[:120] if fors else 'no successor loop')
 
